@@ -282,6 +282,11 @@ def main(tier):
     for chain in (("i8", "i16", "i32", "i64"), ("u8", "u16", "u32", "u64")):
         for a, b in zip(chain, chain[1:]):
             rep.add_ground(f"C12/lemma/issubclass/{a}-{b}", issubclass(getattr(P, a), getattr(P, b)))
+    from checks import history
+    n3, f3 = history.phantom_history()
+    rep.add_bounded("bounded/history-equal-but-distinct-arguments/primitive-types",
+                    f"{n3} ordered pairs of equal-but-distinct arguments (1/True/1.0, n/float(n)/Fraction/Decimal, 0.0/-0.0) over the 13 "
+                    "numeric primitive types: membership and constructor must not depend on earlier calls", n3, f3)
     rep.assumptions += [
         "aware datetimes are modelled as (instant in microseconds, UTC offset) with the offset a whole number of milliseconds",
         "dt.timestamp() >= 0 <=> instant >= 0 (trusted exact float fact); math.isfinite is an uninterpreted predicate on floats",
